@@ -8,5 +8,6 @@ CONSTANTS
   DropFinal = FALSE
   LossyUtf8 = FALSE
   EncodeLFs = 1
+  EofSkipsDecode = FALSE
 SPECIFICATION Spec
 CHECK_DEADLOCK FALSE
